@@ -633,6 +633,15 @@ func (m *Machine) runPackageInit(fr *frame, fn *ssa.Function) (res value) {
 			}
 			m.initFailed[pkg] = why
 			m.poisonPackage(pkg, why)
+			if pkg.Pkg.Path() == "os" {
+				// the standard streams are opaque handles (every output function is a stub)
+				for _, n := range []string{"Stdin", "Stdout", "Stderr"} {
+					if g, ok := pkg.Members[n].(*ssa.Global); ok {
+						*m.globals[g] = extOsNewFile(&frame{i: m}, nil)
+						delete(m.poison, g)
+					}
+				}
+			}
 			res = nil
 		}
 	}()
